@@ -57,6 +57,10 @@ def run(prog, rep, tier, cfg):
                 X.followed_by('K7', '%s:stored-after-write' % key, g, wr, [q.bb for q in pds], 'the updated state is stored')
             rmv = [q for q in g.calls if callee_is(ST + 'remove_completed_deal')(q)]
             rep.need('K7', '%s:removed-when-done' % key, len(rmv) == 1 and result_fate(g, rmv[0]) == 'try', 'finished deals are removed', X.loc(g))
+    # ---- missed activation: provider collateral burnt in full, client refunded (rows shared with C08)
+    import props.c08 as c08
+    c08.missed_activation_money(prog, rep, X, prefix='missed-activation:')
+    c08.slash_burnt(prog, rep, X, prefix='market:')
     # ---- early termination
     PS = X.fn(ST + 'process_slashed_deal', CR)
     tr = [c for c in PS.calls if callee_is(ST + 'transfer_balance')(c)]
